@@ -228,7 +228,7 @@ func compRunOne(w *tr.Writer, tid int, raw json.RawMessage, c *common) error {
 			run.conn = nil
 			run.mu.Unlock()
 			if cc != nil {
-				cc.Close()
+				srv.HardClose(cc)
 			}
 		}
 	}
